@@ -91,9 +91,9 @@ FLOORS = {
               'family:mixed-signs': 5000, 'family:both-negative': 3000, 'family:significance-0': 100,
               'mod:exact-multiple': 4000, 'mod:non-dyadic-divisor': 5000, 'mod:negative-divisor': 3000,
               'mod:div0': 50, 'mod:identity-checked': 15000, 'mod:sign-checked': 15000,
-              'binary-float-args': 20000, 'arg:error': 800, 'arg:numeric-text': 300, 'arg:logical': 200,
+              'binary-float-args': 15000, 'arg:error': 800, 'arg:numeric-text': 300, 'arg:logical': 200,
               'arg:blank': 100, 'arg:text': 300, 'formula:compared': 1500},
-    'thorough': {'evaluations': 20000000, 'round:tie': 5000000, 'round:tie:digits<0': 400000,
+    'thorough': {'evaluations': 20000000, 'round:tie': 4000000, 'round:tie:digits<0': 400000,
                  'round:near-tie': 5000000, 'round:multiple': 1000000, 'family:exact-multiple': 500000,
                  'family:non-dyadic-significance': 500000, 'mod:exact-multiple': 200000,
                  'mod:non-dyadic-divisor': 200000, 'binary-float-args': 500000, 'arg:error': 800,
@@ -184,7 +184,11 @@ def judge_round(F, shown, x, d, got):
     if (F == 'ROUND' and d < 0 and pos == 'tie' and g == R.to_grid(x, d, 'down')
             and (g / unit) % 2 == 0):
         key = 'ROUND/negative-digits-half-even'
-    elif F == 'TRUNC' and abs(g - want) <= unit * Fraction(1000001, 1000000):
+    elif F == 'TRUNC' and (
+            (abs(abs(g - want) - unit) <= R.ulp_tol(x, want) and R.almost_multiple(x, unit)) or
+            (d < 0 and abs(g - want) <= R.ulp_tol(x, want))):
+        # one whole step off where x*10^d is (almost) an integer, or an ulp off after dividing by
+        # the inexact double 10^d (negative digits)
         key = 'TRUNC/float-scaling'
     return key, (f'{shown} = {got!r}, expected {fmt(want)} (the multiple of 10^{-d} '
                  f'{ {"half": "nearest to", "down": "toward zero from", "up": "away from zero from"}[mode]} '
@@ -210,7 +214,7 @@ def judge_family(F, shown, nums, got):
     if sq != 0 and not R.dyadic(s):
         m = abs(sq)
         k = round(g / m)
-        if abs(g - k * m) <= R.ulp_tol(x, g) and any(
+        if R.almost_multiple(x, s) and abs(g - k * m) <= R.ulp_tol(x, g) and any(
                 isinstance(a, Fraction) and abs(k * m - a) == m for a in accept):
             key = f'{F}/non-dyadic-significance'
     lo, hi = R.bracket(x, s) if sq != 0 else (None, None)
@@ -233,7 +237,7 @@ def judge_mod(shown, nums, got):
     clauses = dict(failed)
     if 'identity' in clauses:
         off = clauses['identity']['residual_in_divisors']
-        if not R.dyadic(d) and 0.5 < off < 1.5:
+        if not R.dyadic(d) and 0.5 < off < 1.5 and R.almost_multiple(n, d):
             key = 'MOD/identity-broken-non-dyadic-divisor'
         else:
             key = 'MOD/identity-unclassified'
@@ -439,7 +443,8 @@ def ties(mon, part, size, offset):
         j = max(d + 1, 0)
         mult = 5 * 10 ** (j - d - 1)
         mmax = (10 ** 6 // mult - 1) // 2
-        for m in range(offset % stride, mmax + 1, stride):
+        step = stride if mmax >= 5000 else 1      # the few ties of digits <= -3: always all of them
+        for m in range(offset % step, mmax + 1, step):
             if not part.take():
                 continue
             k = (2 * m + 1) * mult
